@@ -39,6 +39,17 @@ def hand_docs(s):
     return out
 
 
+SUBSCRIPTION_DOCS = [
+    # ONE response key at the root, written several times / reached through fragments
+    "subscription { a ... on Subscription { a } }",
+    "subscription { a ...F } fragment F on Subscription { a }",
+    "subscription { x: a ... { x: a } ...F } fragment F on Subscription { x: a ...G } fragment G on Subscription { x: a }",
+    "subscription { ...F ...F } fragment F on Subscription { a }",
+    "subscription { ... on Subscription { b } ... on Subscription { b } }",
+    "subscription A { a a } subscription B { ...F b } fragment F on Subscription { b ... { b } }",
+]
+
+
 def cross_engine_schemas():
     """two schemas sharing type names whose possible types differ (engines live in one process and share the rule objects)"""
     from collections import OrderedDict
@@ -137,6 +148,12 @@ def main(tier_, replay=None):
                       "where": "second engine sharing type names with another schema (order %d)" % order} for q in docs]
             obs = asyncio.run(valcheck.run_docs(s, items))
             batches.append((s, list(zip(items, obs))))
+    # subscriptions whose single response key is written several times (hand schema with a Subscription type)
+    from . import c07
+    ws = c07.witness_schema()
+    items = [{"text": q, "variables": {}, "opname": "A" if "subscription A" in q else None, "rule": None,
+              "where": "one subscription response key written several times"} for q in SUBSCRIPTION_DOCS]
+    batches.append((ws, list(zip(items, asyncio.run(valcheck.run_docs(ws, items))))))
     problems = valcheck.evaluate("C06_s%d" % seed, batches)
     for fname, err in problems[:2]:
         rep.violation({"property": "C06", "what": "case file failed to evaluate", "file": fname, "stderr": err}, no_input=True)
